@@ -766,6 +766,14 @@ func (m *mappedFile) newCounter(name string) (v *atomic.Uint64, m1 *mappedFile, 
 		limit := m.load32(m.hdrLen + limitOff)
 		start, end = m.place(limit, name)
 		debugPrintf("place %s at %#x-%#x\n", name, start, end)
+		if end < start || round(end, pageSize) < end {
+			// The recorded limit is so close to 2^32 that the offset
+			// arithmetic wrapped around: the file is corrupt. (Without this
+			// check extend rounds the end to 0, "succeeds" without growing
+			// the file, and this loop never terminates.)
+			debugFatalf("corrupt: limit %#x overflows", limit)
+			return nil, nil, errCorrupt
+		}
 		if int64(end) > int64(len(m.mapping.Data)) {
 			newM, err := m.extend(end)
 			if err != nil {
